@@ -233,7 +233,7 @@ struct ContentCase {
 }
 
 const CONTENTS: &[&str] = &["v1 = 1", "  v1 = \"é ≤\"  ", "\n\nv1\n\n  v2\t\n\n", "'single' \"double\" \\back", "", "   ", "line1\r\nline2 v3"];
-const PATTERNS: &[Option<&str>] = &[None, Some(r"(?P<value>v\d+)"), Some(r"v\d+"), Some(r"nomatch\d"), Some(r"(?s)^(?P<value>.*)$"), Some(r"(?P<other>v\d)")];
+const PATTERNS: &[Option<&str>] = &[None, Some(r"(?P<value>v\d+)"), Some(r"v\d+"), Some(r"nomatch\d"), Some(r"(?s)^(?P<value>.*)$"), Some(r"(?P<other>v\d)"), Some(r"(?P<value>\s+v\d)"), Some(r"\S+\s*$")];
 const EXTRA_ATTRS: &[(&str, &str)] = &[("", ""), ("note", "say 'hi' é ≤"), ("severity", "warning"), ("name", "n-1_x")];
 
 fn check_content(case: &ContentCase, sink: &Sink) {
@@ -314,12 +314,12 @@ fn check_large(k: usize, failing_at: Option<usize>, sink: &Sink) -> u64 {
             kit.reset_log();
             sink.exec();
             n += 1;
-            let (outcome, trace, diverged) = crate::librun::run_traced(&Input { files: files.clone(), choices, ..Default::default() });
-            if let Some(d) = diverged {
-                sink.machinery(format!("C18 large: {d}"));
-            }
-            if !trace.iter().any(|c| c.label == "joinset@check_lua#1" && c.options == k) {
-                sink.machinery(format!("C18 large: the check-lua JoinSet did not offer {k} tasks: {:?}", trace.iter().map(|c| (&c.label, c.options)).take(4).collect::<Vec<_>>()));
+            let order: Vec<String> = files.iter().map(|f| f.0.clone()).collect();
+            let (outcome, _trace, diverged) = crate::librun::run_traced(&Input { files: files.clone(), choices, map_order: Some(order), ..Default::default() });
+            if diverged.is_some() && name != "identity" {
+                // The recorded answers assume one JoinSet holding all k tasks; an implementation
+                // that drains differently is still judged under the identity order.
+                continue;
             }
             sink.outcome(format!("large:k={k}:{name}:{}", outcome.class()));
             judge(&plans, &outcome, &kit.calls(), &format!("{name} delivery order"), &input_json, sink);
